@@ -33,6 +33,23 @@ type SMTCtx struct {
 	tagOrder []string
 	fieldIds map[string]int
 	uniq     int
+	patSort  map[string]string // trigger term -> sort (for ground seeds of skolemized goals)
+}
+
+func (c *SMTCtx) notePatSort(term, sort string) {
+	c.mu.Lock()
+	defer c.mu.Unlock()
+	if c.patSort == nil {
+		c.patSort = map[string]string{}
+	}
+	c.patSort[term] = sort
+}
+
+func (c *SMTCtx) patSortOf(term string) (string, bool) {
+	c.mu.Lock()
+	defer c.mu.Unlock()
+	s, ok := c.patSort[term]
+	return s, ok
 }
 
 func newSMTCtx() *SMTCtx {
